@@ -191,9 +191,9 @@ Fixpoint undecided_but_violated (fuel : nat) (pts : list (string -> Q)) (t : ctr
       || existsb (undecided_but_violated f pts) (ct_children t)
   end.
 
-(* tie: implementation vs model (compile_routine) *)
-Definition tie_compile (r : routine) (impl : impl_result) (inexact : bool) (pts : list (list (string * Q))) : list nat :=
-  match compile_routine r, impl with
+(* tie: implementation vs model (compile_routine, or whatever model of the call is handed in) *)
+Definition tie_model (model : result (ctree expr)) (impl : impl_result) (inexact : bool) (pts : list (list (string * Q))) : list nat :=
+  match model, impl with
   | Ok m, IOk t => (cmp_trees (S (ct_height m)) inexact
                               (filter (fun rho => counts_natural (S (ct_height m)) rho m) (points_of pts)) m t
                     ++ cmp_params (S (ct_height m)) m t)%list
@@ -202,6 +202,9 @@ Definition tie_compile (r : routine) (impl : impl_result) (inexact : bool) (pts 
   | res, IErr cls => [if String.eqb (err_class res) cls then 0%nat else 1%nat]
   | res, IOk _ => [1%nat]
   end.
+
+Definition tie_compile (r : routine) (impl : impl_result) (inexact : bool) (pts : list (list (string * Q))) : list nat :=
+  tie_model (compile_routine r) impl inexact pts.
 
 (* debugging aid for the harness: values of every resource/port of both trees at one point *)
 Fixpoint dbg_trees (fuel : nat) (r : string -> Q) (path : string) (a b : ctree expr)
@@ -389,18 +392,19 @@ Definition check_eval_case (compiled : ctree expr) (s : env) (fm : list fimpl) (
 
 (* ---------- C03: two compilations that differ by the renaming of one scope ---------- *)
 (* back : top-level input of the renamed compilation |-> the input of the original it corresponds to *)
-Definition check_rename_case (r' : routine) (i i' : impl_result) (back : list (string * string))
-           (inexact : bool) (pts : list (list (string * Q))) : list nat * list nat :=
-  let tie := tie_compile r' i' inexact pts in
-  let spec :=
+Definition rename_spec (i i' : impl_result) (back : list (string * string))
+           (inexact : bool) (pts : list (list (string * Q))) : list nat :=
       match i, i' with
       | IOk t, IOk t' =>
           flat_map (fun ra => let rb := fun x => match lookup x back with Some y => ra y | None => ra x end in
                               cmp_trees2 (S (ct_height t)) (cmp inexact) ra rb t t') (points_of pts)
       | IErr a, IErr b => [if String.eqb a b then 0%nat else 1%nat]
       | _, _ => [1%nat]
-      end in
-  (tie, spec).
+      end.
+
+Definition check_rename_case (r' : routine) (i i' : impl_result) (back : list (string * string))
+           (inexact : bool) (pts : list (list (string * Q))) : list nat * list nat :=
+  (tie_compile r' i' inexact pts, rename_spec i i' back inexact pts).
 
 (* ---------- C09: the same routine listed in another order ---------- *)
 (* retained constraints must agree as sets: same sides (semantically) and same status *)
